@@ -11,7 +11,7 @@ from ..terms import children, from_json, ident, positions, replace_at, to_json, 
 PROPERTY_ID = "C17"
 RULE = ("expressions from the full-grammar generator (depth <= 3/4) into which paths of depth 1-4 rooted at "
         "the variable are planted at random operand positions (inside calls, lists, comparisons, nested "
-        "lambdas that bind another name), together with decoys: the bare variable, the variable as an inner "
+        "lambdas that bind another name; one planted path in twelve has 5-33 hops, and one tree in 25 is large along the size ladder: lists up to 1001 items, operator runs up to 129, nesting up to 65), together with decoys: the bare variable, the variable as an inner "
         "path segment, inside a namespaced identifier, as a function or parameter name. Oracle: the harness's "
         "own re-rooting on decoded terms; identity (==) when no path is rooted at the variable; input not "
         "mutated. Non-trivial: >= 1 path rooted at the variable below the top and >= 1 other occurrence of "
@@ -36,6 +36,10 @@ def cases(draw, depth):
         p = draw(st.sampled_from(pos))
         kind = draw(st.integers(0, 9))
         segs = draw(st.lists(st.sampled_from(gen_syntax.SAFE_NAMES + [var]), min_size=1, max_size=4))
+        if draw(st.integers(0, 11)) == 0:
+            # a long path: hop counts from the size ladder
+            hops = draw(st.sampled_from(gen_syntax.LADDER["hops"]))
+            segs = [(gen_syntax.SAFE_NAMES + [var])[(i * 5 + hops) % (len(gen_syntax.SAFE_NAMES) + 1)] for i in range(hops)]
         if kind < 6:
             new = ident(var)                       # rooted at the variable
         elif kind == 6:
